@@ -20,7 +20,7 @@ def main(argv):
     if not quals or quals == ["all"]:
         quals = sorted(eng.contracts)
     elif len(quals) == 1 and quals[0].endswith("*"):
-        quals = sorted(q for q in eng.contracts if q.startswith(quals[0][:-1]))
+        quals = sorted(q for q in eng.contracts if q.startswith(quals[0][:-1]) and not eng.contracts[q].get("trusted"))
     allobls = []
     t0 = time.time()
     for q in quals:
@@ -47,6 +47,9 @@ def main(argv):
                 fn = "/tmp/pyvc_dump/" + "".join(c if c.isalnum() else "_" for c in r["name"]) + ".smt2"
                 open(fn, "w").write(r["query"] + "\n; " + str(r.get("model")))
                 print("   dumped", fn)
+    for r in res:
+        if r.get("wall", 0) > 3:
+            print("  slow %.1fs %s lemmas=%s size=%s %s" % (r["wall"], r["name"], r.get("n_lemmas"), r.get("query_size"), r.get("log")))
     print("%d/%d ok, wall %.1fs" % (len(res) - bad, len(res), time.time() - t0))
 
 
